@@ -101,8 +101,9 @@ class FnView:
             if s is None: raise AnchorLost('%s: %s has no enclosing statement' % (self.fn.key, sel))
             return s
         if kind == 'tail':
-            if not self.stmts or not self.stmts[-1].tail: raise AnchorLost('%s: no tail expression' % self.fn.key)
-            return self.stmts[-1]
+            # the tail expression of the body, or a final `return e;` in its place
+            if self.stmts and (self.stmts[-1].tail or self.stmts[-1].kind == 'return'): return self.stmts[-1]
+            raise AnchorLost('%s: no tail expression' % self.fn.key)
         cands = []
         for s in self.all:
             if kind == 'let' and s.kind == 'let':
